@@ -68,7 +68,7 @@ def model(tier, ndays, hol):
     return tlagen.mc_module("MC", "Tabular", defs), tlagen.cfg(defs, plain, invariants=inv), inv
 
 
-def tables(p, seed_shift=0.0):
+def tables(p, seed_shift=0.0, hole=False):
     """DataFrames whose cell values encode (day, column) so that any row mix-up is visible"""
     import pandas as pd
     dx, dy = sorted(p["dx"]), sorted(p["dy"])
@@ -76,6 +76,9 @@ def tables(p, seed_shift=0.0):
                       "f1": [((d * 11) % 19) / 4.0 - 2.0 for d in dx]}, index=pd.DatetimeIndex([D(d) for d in dx]))
     Y = pd.DataFrame({"AAA": [100.0 + ((d * 7) % 13) for d in dy], "BBB": [50.0 + ((d * 5) % 11) for d in dy]},
                      index=pd.DatetimeIndex([D(d) for d in dy]))
+    if hole and len(dy) >= 6:
+        # a missing value that is NOT aligned across assets: BBB skips a print on a date where AAA has one
+        Y.iloc[len(dy) // 2 + 1, 1] = float("nan")
     # the reference rate path crosses zero: 0 and negative values are rates like any other
     rate = pd.Series([[0.02, 0.01, 0.0, -0.0025, 0.005][d % 5] for d in dy], index=Y.index, name="rate")
     return X, Y, rate
@@ -118,7 +121,8 @@ def replay_chunk(ctx, texts):
         if ctx.get("prebuild"):
             # another environment with another exchange calendar is created first in the same process
             impl.classify(lambda: build(p, None, calendar=ctx["prebuild"]))
-        res, env = impl.classify(lambda: build(p, tr, calendar=ctx.get("calendar", "NYSE")))
+        Xh, Yh, rateh = tables(p, hole=True)
+        res, env = impl.classify(lambda: build(p, tr, Xh, Yh.copy(), rateh, calendar=ctx.get("calendar", "NYSE")))
         case = {"kind": "tabular", "p": {k: (sorted(v) if isinstance(v, frozenset) else v) for k, v in p.items()}, "transformer": tr}
         if res != "ok":
             bad = ("construct", "TradingEnvXY could not be built: %r" % (env,))
@@ -128,7 +132,7 @@ def replay_chunk(ctx, texts):
             if px != list(o["px"]):
                 out["fails"].append({"clause": "table", "key": "table/index", "detail": "published table index %s, model %s" % (px[:6], list(o["px"])[:6]), "case": case})
             Xv = X.to_numpy()
-            _, Y0, rate0 = tables(p)
+            _, Y0, rate0 = tables(p, hole=True)
             fold = tuple(p.get("fold") or (0, 0))
             r1, obs = impl.classify(lambda: env.reset("test-set") if fold != (0, 0) else env.reset())
             k = 0
@@ -164,7 +168,11 @@ def replay_chunk(ctx, texts):
                     # quotes and rate at this date
                     ydays = [d for d in sorted(p["dy"]) if d <= day]
                     for col, sym in ((0, "AAA"), (1, "BBB")):
-                        price = float(Y0.iloc[list(sorted(p["dy"])).index(ydays[-1]), col])
+                        given = [float(Y0.iloc[list(sorted(p["dy"])).index(d), col]) for d in ydays]
+                        given = [g for g in given if g == g]           # an asset without a print on a date keeps its last price
+                        if not given:
+                            continue
+                        price = given[-1]
                         book = env.exchange[sym]
                         if abs(book.bid_price - price * (1 - 0.001)) > 1e-9 or abs(book.ask_price - price * (1 + 0.001)) > 1e-9:
                             bad = ("quotes", "day %d %s quoted %s/%s, given price %s widened by the spread is %s/%s" % (
